@@ -179,9 +179,9 @@ def mk_transition_threading(name, H, W):
 def mk_observation_threading(fname):
     def h(sx):
         from .obs_common import make_world, observe, same_cells, sym_pose
-        toks = make_world(sx, 2, 2)
-        pose = sym_pose(sx, 2, 2)
-        area = Area((-1, 0), (-1, 1))
+        toks = make_world(sx, 3, 3)
+        pose = sym_pose(sx, 3, 3)
+        area = Area((-2, 0), (-1, 1))  # 3x3 view: the stochastic function has probabilities strictly between 0 and 1 here
         seen = []
         real = VF.visibility_function_registry[fname]
 
@@ -255,7 +255,9 @@ def h_gridworld_threading(sx):
     other = GridWorld(env.state_space, env.action_space, env.observation_space, reset_f, trans_f, obs_f, partial(RF.living_reward, reward=0.0), TF.reach_exit)
     other.set_seed(seed)
     sx.check(other._rng is not own, 'each-environment-has-its-own-generator')
-    sx.check(other._rng.integers(0, 1 << 30) == np.random.default_rng(seed).integers(0, 1 << 30), 'same-seed-same-stream')
+    third = GridWorld(env.state_space, env.action_space, env.observation_space, reset_f, trans_f, obs_f, partial(RF.living_reward, reward=0.0), TF.reach_exit)
+    third.set_seed(seed)
+    sx.check(list(other._rng.integers(0, 1 << 30, size=4)) == list(third._rng.integers(0, 1 << 30, size=4)), 'same-seed-same-stream')
 
 
 # ---------------------------------------------------------------------------
@@ -280,6 +282,50 @@ class OrderedSetStub:
 
     def __repr__(self):
         return '{' + ', '.join(str(self._e[i]) for i in self._o) + '}'
+
+    # set algebra keeps the (arbitrary) order of what remains
+    def _keep(self, pred, extra=()):
+        e = [x for x in self if pred(x)] + [x for x in extra if x not in self._e]
+        return OrderedSetStub(e, range(len(e)))
+
+    def __sub__(self, other):
+        return self._keep(lambda x: x not in other)
+
+    def __and__(self, other):
+        return self._keep(lambda x: x in other)
+
+    def __or__(self, other):
+        return self._keep(lambda x: True, list(other))
+
+    __rand__ = __and__
+    __ror__ = __or__
+
+    def __rsub__(self, other):
+        return type(other)(x for x in other if x not in self._e)
+
+    def __eq__(self, other):
+        try:
+            return set(self._e) == set(other)
+        except TypeError:
+            return NotImplemented
+
+    def __hash__(self):
+        return hash(frozenset(self._e))
+
+    def issubset(self, other):
+        return all(x in other for x in self._e)
+
+    def difference(self, *others):
+        return self._keep(lambda x: all(x not in o for o in others))
+
+    def union(self, *others):
+        return self._keep(lambda x: True, [x for o in others for x in o])
+
+    def intersection(self, *others):
+        return self._keep(lambda x: all(x in o for o in others))
+
+    def copy(self):
+        return OrderedSetStub(self._e, self._o)
 
 
 def sym_perm(sx, name, n):
